@@ -64,6 +64,35 @@ CLAIMED["C11"] = (
     "whether Q reaches a route registered as P; raw URLs with %2F %20 %61 under both UseEncodedPath settings via ServeHTTP.",
     "alphabet-bounded; static routes for the reach relation; trusted: TLC, net/url parsing", "6 C11")
 
+_CHAIN = ("TLA+ spec RuxChain: ideal onion/abort/panic semantics (recursive function) vs the Context.Next cursor machine with the real "
+          "int8 / abortIndex constants, model-checked with TLC; every chain replayed through real Use/Group/GET/Route.Use/NotFound/"
+          "NotAllowed registration with instrumented handlers")
+CLAIMED["C04"] = (_CHAIN,
+    "TLC runs the cursor machine on every chain of <=4/5 handlers over the scripts {return, Next, Next twice, abort variants} and on "
+    "uniform / one-odd-handler families up to 63 handlers with the real constants, checking that its log is always a prefix of and "
+    "finally equal to the ideal log; each chain is then executed on the real router, split over global (before and after the route is "
+    "registered) / outer group / inner group / in-group Use / variadic / Route.Use levels, and as NotFound and NotAllowed chains.",
+    "scripts are finite behaviours; all 7-way level splits only for n<=3 (seeded splits above); trusted: TLC, instrumented handlers", "6 C04")
+CLAIMED["C05"] = (_CHAIN,
+    "Same machines with abort scripts (Abort, Abort then Next, Next then Abort, AbortWithStatus) at every position of chains up to 63 "
+    "handlers (exhaustive <=4/5, families above), IsAborted probed at every in/out event, AbortWithStatus checked through the writer "
+    "log; chains of 64..66 handlers are explored and attributed to known finding F20.",
+    "documented limit read as: executed chain of at most 63 handlers; F20 (longer chains) is a recorded finding; trusted as C04", "6 C05")
+CLAIMED["C08"] = (
+    "TLA+ writer functions of RuxChain (mirror of response_wirter.go) vs the declarative OneCommit over the executed op sequence, "
+    "model-checked for every op sequence; every sequence and its distribution over handlers replayed against a recording, "
+    "fault-injecting http.ResponseWriter",
+    "All sequences of <=3 ops over 12 writer ops and <=4/5 over 7/8 ops (SetStatus <=0/1xx-5xx, Write 0/1/3 bytes with full, short "
+    "and failing underlying writes, Flush, http.Error), issued from one handler or split before/after Next over two handlers: "
+    "exactly one WriteHeader, first, with the last positive status before the first write/flush, body and Length.",
+    "header values other than status are not modelled; trusted: TLC, the recording writer of the harness", "6 C08")
+CLAIMED["C09"] = (_CHAIN,
+    "Panic scripts (before Next, after Next, after bytes were written) at every position of chains <=3/4 and in long chains, in route, "
+    "NotFound and NotAllowed chains, with OnError installed, x hooks {absent, nothing, status, status+body}: the ideal dispatch "
+    "(DispatchOK invariant) predicts log, hook-run, escape and writer log; each case runs on the real router, is repeated on the same "
+    "router (healthy), and the recovered value is checked under CTXRecoverResult.",
+    "follow-up = the same request repeated (pool residue after panics is C10's model); trusted as C04", "6 C09")
+
 PENDING = {}
 
 
